@@ -240,6 +240,8 @@ def judge_e2e(res, crate, obs, flavours=("td_string", "td_display", "td"), prop_
                 text = "<<panic: %s>>" % o["panic"]
             else:
                 text = e2e.normalise_html(o["v"]) if fl in ("td", "t", "tu") else o["v"]
+                if fl in ("td", "t", "tu") and exp["expected"] == "" and text == " ":
+                    text = ""     # leptos SSR writes a one-space placeholder for an empty text node (see DESIGN section 9)
             if is_nontrivial(exp["rnodes"]):
                 res.nontriv([exp["rnodes"], exp["locale"] == exp["effective"], fl])
             res.count("e2e:" + fl)
